@@ -1453,7 +1453,9 @@ MUTANTS += [
     ("C11", "algos/_hdf_database.py", r"if append and len\(design_vars_grp\) != 0:", "if append:"),
     ("C11", _BS, r"        self\.save_optimization_history\(self\._opt_hist_backup_path, append=True\)", "        pass"),
     # the final export of execute is guarded by the wrong comparison (never fires when points were added)
-    ("C11", _BS, r"            if 0 < n_x < n_x_a:", "            if 0 < n_x_a < n_x:"),
+    ("C11", _BS, r"            if n_x < n_x_a:", "            if n_x_a < n_x:"),
+    # revert of the repair 6142829: the final export is skipped for a run that starts from an empty database
+    ("C11", _BS, r"            if n_x < n_x_a:", "            if 0 < n_x < n_x_a:"),
     # listener protocol
     ("C03", "algos/database.py", r"        self\.__hdf_database\.add_pending_array\(hashed_input_value\)\n", ""),
     ("C03", "algos/database.py", r"        stored_outputs = self\.get\(hashed_input_value\)\n", "        if self.__store_listeners:\n            self.notify_store_listeners(x_vect)\n        stored_outputs = self.get(hashed_input_value)\n"),
@@ -1527,4 +1529,25 @@ MUTANTS += [
     ("C19", _PSP, r"            if self\.uncertain_variables:\n                self\.build_joint_distribution\(\)\n        super\(\)\.remove_variable\(name\)", "        super().remove_variable(name)"),
     ("C19", _PSP, r"data_array, self\.variable_sizes, self\.uncertain_variables", "data_array, self.variable_sizes, list(self._variables)"),
     ("C19", _PSP, r"sample = self\.distribution\.compute_samples\(n_samples\)", "sample = self.distribution.compute_samples(n_samples + 1)"),
+]
+
+# ---- C16 per-component steps with a subset of components (revert of 07a0abc + semantic mutants)
+MUTANTS += [
+    ("C16", "utils/derivatives/base_gradient_approximator.py", r"        elif isinstance\(step, ndarray\) and step\.size == n_dim:\n            # One step by input component: keep the steps of the components of interest\.\n            step = step\[list\(x_indices\)\]\n", ""),
+    ("C16", "utils/derivatives/base_gradient_approximator.py", r"            step = step\[list\(x_indices\)\]", "            step = step[: len(x_indices)]"),
+    ("C13", "utils/derivatives/base_gradient_approximator.py", r"            step = step\[list\(x_indices\)\]", "            step = step[list(x_indices)] * 2.0"),
+]
+
+MUTANTS += [
+    # ---- C06 follow-up: scaling setters (revert of fix 05f502e first), Newton step delegation, residual function of MDAQuasiNewton
+    ("C06", "mda/quasi_newton.py", r"        self.io.data = local_data_copy\n", '        pass\n'),
+    ("C06", "mda/quasi_newton.py", r"        self._compute_residuals\(local_data_before_execution\)\n        return", '        self._compute_residuals(self.io.data)\n        return'),
+    ("C06", "mda/quasi_newton.py", r"        self._execute_disciplines_and_update_local_data\(local_data_before_execution\)", '        self._execute_disciplines_and_update_local_data()'),
+    ("C06", "mda/newton_raphson.py", r"        self._linearize_disciplines\(input_data\)\n", '        self._linearize_disciplines(self.io.data)\n'),
+    ("C06", "mda/newton_raphson.py", r"            input_data,\n            self._resolved_variable_names,", '            input_data,\n            self._resolved_residual_names,'),
+    ("C06", "mda/base_mda_root.py", r"                input_data, execute=self.settings.execute_before_linearizing", '                input_data, execute=True'),
+    ("C06", "mda/base_mda.py", r"        self._scaling_data = None\n\n    def _initialize_grammars", '        pass\n\n    def _initialize_grammars'),
+    ("C06", "mda/sequential_mda.py", r"        for mda in self.mda_sequence:\n            mda.scaling = scaling", '        for mda in self.mda_sequence:\n            pass'),
+    ("C06", "mda/mda_chain.py", r"        self._scaling = scaling\n        for mda in self.inner_mdas:", '        for mda in self.inner_mdas:'),
+    ("C06", "mda/newton_raphson.py", r"            residuals=self.get_current_resolved_residual_vector\(\),", '            residuals=self.get_current_resolved_variables_vector(),'),
 ]
